@@ -831,9 +831,10 @@ def study(ctx, focus, escalate=False):
     if 'err' in box:
         raise box['err']
     impl = box['impl']['histories']
+    sums = box['impl'].get('sums', {'agree': True})
     res = {'hs': hs, 'mismatch': None, 'hits': [], 'n_ops': 0, 'ops_hist': {},
            'nontrivial': {'C06': [], 'C07': [], 'C08': []}, 'evals': 0,
-           'crash_points': 0, 'msv_ok': True}
+           'crash_points': 0, 'msv_ok': True, 'sums': sums}
     for hi, ((kind, h), im, (codes, canon, fin)) in enumerate(zip(hs, impl, model)):
         # replay the harness-side content table in the same order as expand()
         for si, (hop, ob, mo) in enumerate(zip(h, im['obs'], canon)):
@@ -1042,3 +1043,154 @@ def units_study(ctx):
                              'what': 'subset(prime, %r) = %r, exact answer %r'
                              % (u['prefix'], ci[1], want)})
     return len(units), bad, hits
+
+
+# ---------------------------------------------------------------------------
+# the check shared by props/C06.py, C07.py, C08.py
+# ---------------------------------------------------------------------------
+RULES = {
+    'C06': 'operation histories (update / load / remove / version bump / target '
+           'add / close+reopen, crashes) on the real shelve backend vs the model; '
+           'non-trivial = a load that follows an update of the same identity and '
+           'an update of a confusable identity (other target, other version or '
+           'prefix-related algorithm name with the same state vector and value '
+           'names)',
+    'C07': 'operation histories with repeated contents and a crash injected at '
+           'every atomic step of an update (mkstemp, dump, md5sum, sha1sum, '
+           'unlink|move, table write), reopen after each; non-trivial = identical '
+           'content stored twice or a crash strictly between staging and the '
+           'table write',
+    'C08': 'operation histories over prefix families of names (a/ab/abc, '
+           'alg/alg2, sv/sv2, v/v1/v12, t/t1, versions 1.1.0/1.10.0/11.0.0) with '
+           'remove / reset / trace / _prime_keys / next / close+reopen, plus the '
+           'pure util functions on generated tables; non-trivial = a remove / '
+           'trace / reset addressed the shorter name of a proper prefix pair, or '
+           'a close+reopen followed a registration',
+}
+
+
+def fingerprints(ctx):
+    import os
+    cur = {rel: core.fingerprint(rel, names) for rel, names in FINGERPRINTS}
+    base = json.load(open(os.path.join(os.path.dirname(__file__),
+                                       'store_fingerprints.json')))
+    changed = sorted('%s:%s' % (rel, q) for rel in cur for q in cur[rel]
+                     if base.get(rel, {}).get(q) != cur[rel][q])
+    ctx.note('fingerprints', cur)
+    ctx.note('fingerprints_changed', changed)
+    return bool(changed)
+
+
+def common_trust(ctx):
+    ctx.trust(
+        'hand-written model coq/Model/Catalogue.v + Store.v (one Gallina function '
+        'per Python function of db/shelve/util.py, state.py, __init__.py '
+        'next/remove/reset/trace, model.py __to_key/_update/_load, comms.py '
+        'Worker.do set/get/upd, db/util encode/move) tied to the code by the '
+        'correspondence run of this check, not by proof',
+        'tools/harness/drive_store.py: sockets replaced by a direct call of '
+        'comms.Worker.do (as Test/test_07.py), comms.acquire/release stubbed, '
+        'crash points raised from wrappers around os.unlink, shutil.move, '
+        'tempfile.mkstemp, pickle.dump, subprocess.check_output (inside '
+        'dawgie.db.util) and shelve.Shelf.__setitem__ of the prime table',
+        'md5sum/sha1sum: after the first 40 real calls per run a hashlib stand-in '
+        'prints the same line (every real call is compared with it); the oracle '
+        're-hashes every stored file with hashlib',
+        'props/store_common.py: history generator, the string<->code-point and '
+        'pickled-bytes<->Z tables, the canonicalisers (sets sorted, types kept) '
+        'and coq/Model/StoreIO.v (names printed as strings)',
+        'python: str(int)/int(str) on canonical decimals, str(tuple), eval(str(key)) '
+        '== key, dict semantics of shelve/dbm.dumb within one process',
+    )
+    ctx.assume(
+        'shutil.move between staging and store is an atomic rename (same device)',
+        'pickle.loads(pickle.dumps(x)) == x for the stored values; a value is its '
+        'pickled bytes (content + sealed version)',
+        'md5/sha1 digest is a function of the bytes; collision freedom is an '
+        'explicit hypothesis of the "exactly when" theorems, never an axiom',
+        'a crash is an exception raised before an atomic step; dbm durability '
+        '(unsynced index of dbm.dumb at process kill) is not modelled',
+        'names of the histories are plain (no ":"); dissect() on names that '
+        'contain the separators is compared on the pure-function units only',
+    )
+
+
+def replay_one(ctx, pid):
+    '''./check Cxx --replay F : re-execute the history of a replay file'''
+    rp = json.load(open(ctx.replay))
+    ops = rp.get('ops')
+    if not ops:
+        print('[%s] replay file has no operation history (%s)' % (pid, rp.get('broken')))
+        return
+    im = ctx.harness('drive_store.py', {'histories': [ops]})['histories'][0]
+    orc = run_oracles(ops, im)
+    ctx.count(evaluations=len(ops), nontrivial_keys=[('replay', json.dumps(ops)), 'x'])
+    for prop, kind, fields, what in orc.hits:
+        if prop == pid:
+            ctx.violation(kind, fields, what, {'source': 'oracle', 'ops': ops})
+    if not [h for h in orc.hits if h[0] == pid]:
+        print('[%s] replay: the history no longer violates the property' % pid)
+
+
+def run_check(ctx, pid, with_units=False):
+    ctx.cov['rule'] = RULES[pid]
+    common_trust(ctx)
+    if ctx.replay:
+        ctx.coq_props()
+        replay_one(ctx, pid)
+        return
+    escalate = fingerprints(ctx)
+    r = ctx.coq_props()
+    res = study(ctx, pid, escalate)
+    mine = [h for h in res['hits'] if h['property'] == pid]
+    unit_bad, unit_hits, n_units = None, [], 0
+    if with_units:
+        n_units, unit_bad, unit_hits = units_study(ctx)
+        mine += [h for h in unit_hits if h['property'] == pid]
+    if (res['mismatch'] or unit_bad or not r['ok']) and not mine and ctx.quick \
+            and not escalate:
+        # deeper search before giving up (DESIGN Appendix C)
+        ctx.log('escalating the search to thorough depth')
+        res2 = study(ctx, pid, True)
+        mine = [h for h in res2['hits'] if h['property'] == pid]
+    for h in mine:
+        rp = {'source': 'oracle', 'ops': h.get('ops'), 'unit': h.get('unit'),
+              'history': h.get('history')}
+        ctx.violation(h['kind'], h['fields'], '%s: %s' % (pid, h['what']), rp)
+    if not mine:
+        if not r['ok']:
+            ctx.broken('theorem/file %s' % r['failing'], r['log'],
+                       {'source': 'proof', 'theorem': r['failing']})
+        if res['mismatch']:
+            m = res['mismatch']
+            ctx.broken('correspondence: model and implementation disagree at '
+                       'step %s of a %s history' % (m['step'], m['kind']),
+                       'op=%s\nimpl =%s\nmodel=%s' % (m.get('op'), m['impl'], m['model']),
+                       {'source': 'correspondence', 'ops': m['ops'],
+                        'expected': m['model'], 'observed': m['impl']})
+        if unit_bad:
+            ctx.broken('correspondence: util function disagrees with the model',
+                       json.dumps(unit_bad),
+                       {'source': 'correspondence', 'unit': unit_bad['unit'],
+                        'expected': unit_bad['model'], 'observed': unit_bad['impl']})
+        if not res['msv_ok']:
+            ctx.broken('harness: MetricStateVector layout differs from the model table',
+                       'see Model/StoreIO.v MSV_VALS', {'source': 'correspondence'})
+        if not res['sums']['agree']:
+            ctx.broken('harness: hashlib stand-in disagrees with md5sum/sha1sum', '',
+                       {'source': 'correspondence'})
+    ctx.count(evaluations=res['evals'] + n_units,
+              nontrivial_keys=res['nontrivial'][pid])
+    ctx.note('histories', len(res['hs']))
+    ctx.note('history_kinds', {k: sum(1 for kk, _ in res['hs'] if kk == k)
+                               for k in ('directed', 'random', 'sweep')})
+    ctx.note('operations', res['ops_hist'])
+    ctx.note('crash_points_injected', res['crash_points'])
+    ctx.note('digest_calls', res['sums'])
+    ctx.note('pure_function_units', n_units)
+    ctx.note('escalated', bool(escalate))
+    ctx.note('not_covered', 'db/post (PostgreSQL); dbm durability at process kill; '
+             'cross-device shutil.move; Connector socket framing (C14); '
+             '_update_msv (same path as _update); names containing ":"')
+    for kind, h in res['hs'][:3]:
+        ctx.sample({'kind': kind, 'ops': h[:6]})
